@@ -206,6 +206,8 @@ class CommandSuite(Suite):
         out += self._record_cases(rng, thorough)
         out += self._job_cases(rng, 2500 if thorough else 350)
         out += self._probe_cases(rng, thorough)
+        # which node of an allocation is the manager node, and what a node records (multi-node allocations)
+        out += [{"op": "replica.manager", "nodeId": v} for v in (None, "0", "1", "2", "00", "", "0 ", " 0", "10", "-0", "０")]
         return out
 
     def _split(self, text, **kw):
@@ -423,6 +425,43 @@ class CommandSuite(Suite):
         (out / "results").mkdir()
         return root, out
 
+    def _impl_manager(self, case):
+        """real `SlurmManager.am_i_manager()` under the given SLURM_NODEID, then a real AsyncCliCommand built with that
+        answer: does `_complete` / `cancel` append a row?"""
+        from jade.hpc.slurm_manager import SlurmManager
+        from jade.extensions.generic_command.generic_command_parameters import GenericCommandParameters
+        saved = os.environ.pop("SLURM_NODEID", None)
+        try:
+            if case["nodeId"] is not None:
+                os.environ["SLURM_NODEID"] = case["nodeId"]
+            mgr = bool(SlurmManager(None).am_i_manager())
+        finally:
+            os.environ.pop("SLURM_NODEID", None)
+            if saved is not None:
+                os.environ["SLURM_NODEID"] = saved
+        res = {"manager": mgr}
+        for kind in ("Finished", "Canceled"):
+            root, out = self._fresh_output(S + "/o")
+            job = GenericCommandParameters(command="true", name="j")
+            cmd = self._acc.AsyncCliCommand(job, "true", str(out), 1, mgr, "77")
+            if kind == "Canceled":
+                cmd.cancel()
+            else:
+                class _P:
+                    returncode = 0
+                class _F:
+                    def close(self):
+                        pass
+                cmd._pipe, cmd._stdout_fp, cmd._stderr_fp, cmd._start_time = _P(), _F(), _F(), 0.0
+                (out / "job-outputs" / "j").mkdir(parents=True, exist_ok=True)
+                cmd._complete()
+            f = out / "results" / "results_batch_1.csv"
+            rows = [l for l in f.read_text().split("\n")[1:] if l.strip()] if f.exists() else []
+            res["records" + kind] = len(rows) == 1 if rows else False
+            if len(rows) > 1:
+                res["records" + kind] = f"{len(rows)} rows"
+        return res
+
     def _impl_split(self, case):
         from jade.jobs.async_cli_command import AsyncCliCommand
         from jade.extensions.generic_command.generic_command_parameters import GenericCommandParameters
@@ -623,7 +662,7 @@ class CommandSuite(Suite):
         """The job as the configuration stores it: the pydantic model of `GenericCommandParameters` strips
         leading/trailing whitespace of `command` and `name` (see the note in props/C19.py).  Model and oracle
         speak about the stored ("configured") values."""
-        if case["op"] == "command.split":
+        if case["op"] in ("command.split", "replica.manager"):
             return case
         key = (case.get("command"), case["name"])
         eff = self._eff_cache.get(key)
@@ -650,6 +689,16 @@ class CommandSuite(Suite):
         case = self._effective(case)
         op = case["op"]
         v = []
+        if op == "replica.manager":
+            want = case["nodeId"] == "0"
+            if not isinstance(result, dict) or result.get("manager") != want:
+                v.append(Violation("C19", "manager.node", f"SLURM_NODEID={case['nodeId']!r}: am_i_manager() = {result.get('manager') if isinstance(result, dict) else result!r}, "
+                                   "the manager node of an allocation is the node with id 0 and no other"))
+            for kind in ("Finished", "Canceled"):
+                if isinstance(result, dict) and result.get("records" + kind) != want:
+                    v.append(Violation("C19", "manager.records", f"SLURM_NODEID={case['nodeId']!r}: a node records a {kind.lower()} job's result: "
+                                       f"{result.get('records' + kind)!r}, expected {want} (exactly the manager node records, once)"))
+            return v
         if op == "command.split":
             exp = ref_split(case["text"])
             self._check_argv(v, "split.argv", case["text"], result if isinstance(result, list) else None,
@@ -750,6 +799,8 @@ class CommandSuite(Suite):
     def tags(self, case, result):
         op = case["op"]
         t = [op]
+        if op == "replica.manager":
+            return t + [f"manager.nodeId={case['nodeId']!r}"]
         text = case.get("text", case.get("cmd", case.get("command", "")))
         if isinstance(result, dict) and "error" in result:
             t.append(op + ".error")
